@@ -31,7 +31,7 @@ func methodKey(fn *ssa.Function) string {
 }
 
 func types_TypeString(t types.Type) string {
-	return types.TypeString(t, func(p *types.Package) string { return "" })
+	return canonAny(types.TypeString(t, func(p *types.Package) string { return "" }))
 }
 
 func (g *Gen) contractFor(fn *ssa.Function) (*Contract, string) {
@@ -334,6 +334,24 @@ func (fg *FuncGen) applyCall(cl *callee, args []Val, pos token.Pos, guard string
 	if cl.inModule && cl.kind != "extern" {
 		fg.argInvariants(cl, args, pre, txt)
 	}
+	if cl.ct != nil {
+		// the callee assigns every field of these arguments (proved against its body)
+		for _, ow := range cl.ct.Overwrites {
+			pn := strings.Fields(ow)[0]
+			for i, n := range cl.params {
+				if n == pn && i < len(args) {
+					if p, ok := args[i].Typ.Underlying().(*types.Pointer); ok {
+						for _, fr := range fg.fieldRefs(p.Elem(), args[i].T, "") {
+							if overwriteExcluded(ow, fr.path) {
+								continue
+							}
+							fg.ownMods[fr.comp.Name] = append(fg.ownMods[fr.comp.Name], fg.reach+"\x00"+fr.ref)
+						}
+					}
+				}
+			}
+		}
+	}
 	// frame
 	fg.havocForCall(cl, args, st, pre)
 	fg.ownObjectsAcrossCall(pre, st, txt)
@@ -600,9 +618,12 @@ func (fg *FuncGen) frameItems(items []string, env *SpecEnv) (out []frameItem, al
 					out = append(out, frameItem{comp: d, ref: v.T}, frameItem{comp: vc, ref: v.T})
 				case "maptype":
 					t := fg.g.resolveType(x.Args[0].String(), env.pkg)
-					m, ok := t.Underlying().(*types.Map)
-					if t == nil || !ok {
+					if t == nil {
 						fg.specFail(env, "unknown map type in %s", it)
+					}
+					m, ok := t.Underlying().(*types.Map)
+					if !ok {
+						fg.specFail(env, "not a map type in %s", it)
 					}
 					d, vc := fg.mapComps(m)
 					out = append(out, frameItem{comp: d}, frameItem{comp: vc})
@@ -1181,7 +1202,159 @@ func (fg *FuncGen) checkExit(st *State, results []Val) {
 		}
 		fg.frameObligations(st)
 	}
+	fg.frameSweepObligations(st)
+	fg.overwriteObligations(results)
 	fg.objInvObligations(st)
+}
+
+type fieldRef struct {
+	comp *Comp
+	ref  string
+	path string
+}
+
+// fieldRefs enumerates the scalar field locations of the struct of type t stored at ref
+// (embedded structs are followed; arrays count as one location).
+func (fg *FuncGen) fieldRefs(t types.Type, ref, path string) []fieldRef {
+	u, ok := t.Underlying().(*types.Struct)
+	if !ok {
+		return nil
+	}
+	var out []fieldRef
+	for i := 0; i < u.NumFields(); i++ {
+		ft := u.Field(i).Type()
+		name := path + u.Field(i).Name()
+		switch {
+		case isStruct(ft):
+			out = append(out, fg.fieldRefs(ft, fg.embRef(t, i, ref), name+".")...)
+		case isArray(ft):
+			out = append(out, fieldRef{fg.elemComp(ft.Underlying().(*types.Array).Elem()), fg.embRef(t, i, ref), name})
+		default:
+			out = append(out, fieldRef{fg.fieldComp(t, i), ref, name})
+		}
+	}
+	return out
+}
+
+// overwriteObligations: `overwrites p`: on every path to a return every field of *p has been
+// assigned by this function (or by a callee that overwrites it) - so nothing of the object's
+// earlier life survives.  The field list comes from the struct type, not from the contract.
+func (fg *FuncGen) overwriteObligations(results []Val) {
+	if fg.ct == nil || len(fg.ct.Overwrites) == 0 {
+		return
+	}
+	for _, ow := range fg.ct.Overwrites {
+		pn := strings.Fields(ow)[0]
+		var pv Val
+		found := false
+		for _, p := range fg.fn.Params {
+			if p.Name() == pn {
+				pv, found = fg.vals[p], true
+			}
+		}
+		if !found && pn == "result" && len(results) == 1 {
+			pv, found = results[0], true
+		}
+		if !found {
+			fg.g.bindErrors = append(fg.g.bindErrors, fg.ct.Key+": overwrites "+pn+": no such parameter")
+			continue
+		}
+		pt, ok := pv.Typ.Underlying().(*types.Pointer)
+		if !ok {
+			fg.g.bindErrors = append(fg.g.bindErrors, fg.ct.Key+": overwrites "+pn+": not a pointer")
+			continue
+		}
+		for _, fr := range fg.fieldRefs(pt.Elem(), pv.T, "") {
+			if overwriteExcluded(ow, fr.path) {
+				continue
+			}
+			var alts []string
+			for _, m := range fg.ownMods[fr.comp.Name] {
+				if m == "*" {
+					continue
+				}
+				i := strings.Index(m, "\x00")
+				if i < 0 {
+					continue
+				}
+				if fr.ref == pv.T {
+					alts = append(alts, and(m[:i], fmt.Sprintf("(= %s %s)", m[i+1:], fr.ref)))
+				} else {
+					// a store of the whole enclosing struct is recorded under the outer reference
+					alts = append(alts, and(m[:i], fmt.Sprintf("(or (= %s %s) (= %s %s))", m[i+1:], fr.ref, m[i+1:], pv.T)))
+				}
+			}
+			goal := "false"
+			if len(alts) > 0 {
+				goal = or(alts...)
+			}
+			fg.oblige("overwrites", pn+"."+fr.path+" is assigned on every path", goal, nil, "overwrites")
+		}
+	}
+}
+
+// frameSweepObligations: `framesweep[Cxx] F globs`: on objects that existed at entry the
+// function changes only components listed (as whole components) in the named frame F.
+func (fg *FuncGen) frameSweepObligations(st *State) {
+	for _, sw := range fg.g.cs.FrameSweeps {
+		if sw.Pkg != fg.fn.Pkg.Pkg.Path() || !sweepMatch(sw, methodKey(fg.fn)) {
+			continue
+		}
+		env := &SpecEnv{st: fg.entry, old: fg.entry, vars: map[string]Val{}, pkg: fg.fn.Pkg.Pkg, preAlloc: fg.allocTerm(fg.entry), what: "framesweep " + sw.Frame}
+		items, all := fg.frameItems([]string{sw.Frame}, env)
+		if all {
+			continue
+		}
+		whole := map[string]bool{}
+		for _, it := range items {
+			if it.ref == "" {
+				whole[it.comp.Name] = true
+			} else {
+				fg.g.bindErrors = append(fg.g.bindErrors, "framesweep "+sw.Frame+": only component-level items are allowed")
+			}
+		}
+		if st.epoch != 0 {
+			fg.oblige("frame", "whole heap havocked by an uncontracted call (outside "+sw.Frame+")", "false", sw.Props, "framesweep")
+			continue
+		}
+		a0 := fg.allocTerm(fg.entry)
+		nTouched, nAllowed := 0, 0
+		for _, cn := range sortedKeys(st.heap) {
+			c := fg.comps[cn]
+			if c == nil {
+				continue
+			}
+			if fg.get(st, c) != fg.get(fg.entry, c) {
+				nTouched++
+				if whole[cn] {
+					nAllowed++
+				}
+			}
+		}
+		// summary (decided by the generator: a component whose symbolic version at exit is the entry
+		// version was not written); the components that need a solver follow one by one
+		fg.obls = append(fg.obls, &Obligation{Name: fg.oblName("frame", "writes on pre-existing objects stay inside "+sw.Frame), Kind: "frame", Func: funcDisplayName(fg.fn), Props: sw.Props,
+			Prefix: len(fg.asserts), Goal: "false", Cond: "true", Parts: []string{"true"}, Clause: fmt.Sprintf("framesweep: %d components written, %d of them listed in the frame, %d proved fresh-only below", nTouched, nAllowed, nTouched-nAllowed)})
+		for _, cn := range sortedKeys(st.heap) {
+			c := fg.comps[cn]
+			if c == nil || whole[cn] {
+				continue
+			}
+			cur, old := fg.get(st, c), fg.get(fg.entry, c)
+			if cur == old {
+				continue
+			}
+			var f string
+			if c.Kind == "global" {
+				f = fmt.Sprintf("(= %s %s)", cur, old)
+			} else {
+				fg.enc.usesQuant = true
+				fg.needRootOf()
+				f = fmt.Sprintf("(forall ((r Int)) (! (=> (< (rootOf r) %s) (= (select %s r) (select %s r))) :pattern ((select %s r))))", a0, cur, old, cur)
+			}
+			fg.oblige("frame", cn+" of pre-existing objects unchanged (not in "+sw.Frame+")", f, sw.Props, "framesweep")
+		}
+	}
 }
 
 // frameSpec: the declared frame of the function under verification (its own modifies
@@ -1766,4 +1939,15 @@ func (fg *FuncGen) needRootOf() {
 	fg.enc.declFun("rootOf", []string{"Int"}, "Int")
 	fg.enc.usesQuant = true
 	fg.enc.axiom("(forall ((r Int)) (! (=> (>= r 0) (= (rootOf r) r)) :pattern ((rootOf r))))")
+}
+
+// overwriteExcluded: `overwrites p -a -b.c`: field paths a, a.*, b.c, b.c.* are not claimed.
+func overwriteExcluded(clause, path string) bool {
+	for _, f := range strings.Fields(clause)[1:] {
+		x := strings.TrimPrefix(f, "-")
+		if path == x || strings.HasPrefix(path, x+".") {
+			return true
+		}
+	}
+	return false
 }
